@@ -39,11 +39,19 @@ func NewTimeSeriesLoader(
 	slotRange timeutil.SlotRange,
 	fields []*fieldEntry,
 ) flow.DataLoader {
+	// NOTE: one loader is created for each series container(high key) of the same filter result set and the loaders
+	// run in parallel, Load positions the field entry on the current series' write buffer(fieldEntry.Reset),
+	// so each loader needs its own copy of the field entries.
+	ownFields := make([]*fieldEntry, len(fields))
+	for i, fe := range fields {
+		c := *fe
+		ownFields[i] = &c
+	}
 	return &timeSeriesLoader{
 		db:              db,
 		timeSeriesIndex: timeSeriesIndex,
 		seriesIDHighKey: seriesIDHighKey,
-		fields:          fields,
+		fields:          ownFields,
 		slotRange:       slotRange,
 	}
 }
